@@ -60,6 +60,9 @@ CHECKS = {
  "C04": ("fault_enumeration", "failpoint-driven fault enumeration with real process deaths (_exit before the k-th RocksDB write), reopen, recovery reorg, Obs vs fresh replay",
          "A child process replays a generated history and is killed immediately before the k-th put/delete/flush of a commit / reorg / finalise (or between calls); the parent reopens the directory, runs reorg(N) for durable heights N in the window on copies, and compares Obs with a fresh replay to N and a two-block extension; finalise/between-call crashes must leave exactly the last committed state.",
          "Crash = process death (page cache survives); torn RocksDB writes/fsync loss out of scope; crash points sampled in quick (stride + table boundaries), denser in thorough."),
+ "C11": ("exploration", "offline checker over the lock-event log (nesting discipline, lock-order graph) + forced schedules through hook pause points + stress with injected delays",
+         "Lock hooks in SharedData report attempt/acquired/released with call sites; every method is run in four engine states and nested acquisitions are classified; each same-lock read-after-read candidate on a lock with RPC writers is exhibited by a forced schedule in a child process (pause at the nested acquisition, queue a writer, release, observe the wait-for cycle); 10 readers + indexer + maintenance threads run under delay injection and any lock attempt outstanding for >10 s is a violation.",
+         "Only acquisition patterns the workload produces are judged; interleavings are sampled, not enumerated; TSan/helgrind are not applicable (std futex RwLock, no unsafe)."),
 }
 NOT_YET = "check not built yet in this session (planned, see DESIGN.md)"
 ALL = ["C%02d" % i for i in range(1, 21)]
